@@ -236,8 +236,18 @@ def _check_evidence(ev):
 
 # -- process pool -------------------------------------------------------
 
-def _init_worker():
+def _init_worker(counter=None, pin=False):
     signal.signal(signal.SIGINT, signal.SIG_IGN)
+    if pin and counter is not None:
+        # baton hand-offs between threads are ~2x faster and far less noisy on one CPU
+        with counter.get_lock():
+            k = counter.value
+            counter.value += 1
+        try:
+            cpus = sorted(os.sched_getaffinity(0))
+            os.sched_setaffinity(0, {cpus[k % len(cpus)]})
+        except (AttributeError, OSError):
+            pass
 
 
 def _call(arg):
@@ -248,7 +258,7 @@ def _call(arg):
         return ("err", traceback.format_exc())
 
 
-def pmap(fn, items, nproc=None, chunksize=1):
+def pmap(fn, items, nproc=None, chunksize=1, pin=False):
     """Unordered parallel map over a fork pool; a worker exception is a harness error."""
     items = list(items)
     nproc = nproc or NPROC
@@ -257,7 +267,8 @@ def pmap(fn, items, nproc=None, chunksize=1):
             yield fn(it)
         return
     ctx = multiprocessing.get_context("fork")
-    pool = ctx.Pool(min(nproc, len(items)), initializer=_init_worker)
+    counter = ctx.Value("i", 0)
+    pool = ctx.Pool(min(nproc, len(items)), initializer=_init_worker, initargs=(counter, pin))
     try:
         for status, val in pool.imap_unordered(_call, [(fn, it) for it in items], chunksize):
             if status == "err":
